@@ -2,6 +2,8 @@
    Theorems only; every proof is [exact <lemma>] or a witness checked by vm_compute; Print Assumptions under each.
    Model: Model/Graph.v (one node per Ovld object; [step] = one public operation; [run ops] = the graph after the
    history [ops] from nothing).  Every statement quantifies over ALL finite histories.
+   The model follows the code after the repairs 7f4d316 (lock() also locks every mixin of the locked node, recursively)
+   and 7be068c (add_mixins ends with _update() when it added something).
    Observable of a node ([obs]): the table snapshot of its last build if it is in use, else what a first use would build.
    Abstraction: a node's behaviour IS its effective table (signature key -> method); dispatch over a table is the
    Resolve component's business.
@@ -27,11 +29,12 @@ Theorem C16_overlay : forall ops n x t, let g := run ops in
 Proof. intros ops n x t. exact (overlay_defns (run ops) n x t (Inv_run ops)). Qed.
 Print Assumptions C16_overlay.
 
-(* FULL STATEMENT (false of the faithful model, see the two refutations below):
+(* FULL STATEMENT (still false of the faithful model, see C16_overlay_refuted_unused_link):
      in every history, every node's observable is the overlay of its parents' observables and its own table.
-   PROVED for the histories in the decidable domain [stale_free] (Model/Graph.v) = complement of the two finding classes:
-   no successful register/unregister on a node from which a used node derives without being reached by the linkback
-   propagation (KF-18), no successful add_mixins on a node that is, or has a descendant, in use (KF-40). *)
+   PROVED for the histories in the decidable domain [stale_free] (Model/Graph.v) = complement of the one remaining finding
+   class KF-43: no successful register / unregister / add_mixins on a node from which a used node derives without being
+   reached by the linkback propagation.  (Before the repairs the domain also excluded KF-18 -- now refused by the
+   transitive lock -- and every add_mixins on a used node, KF-40 -- now rebuilt and propagated.) *)
 Theorem C16_overlay_used_partial : forall ops n x t, stale_free ops = true -> let g := run ops in
   g_get g n = Some x -> obs g n = Some t ->
   exists pts, Forall2 (fun m pt => obs g m = Some pt) (n_mixins x) pts /\
@@ -39,27 +42,17 @@ Theorem C16_overlay_used_partial : forall ops n x t, stale_free ops = true -> le
 Proof. exact overlay_used. Qed.
 Print Assumptions C16_overlay_used_partial.
 
-(* KF-18: f0 <- f1 <- f2 (plain copies), f2 used, then f0.register: f2 silently keeps the old table *)
-Definition kf18_history : list op :=
-  [OCreate [] false; ORegister 0 0 1; OCopy 0 [] false; OCopy 1 [] false; OUse 2; ORegister 0 1 9].
+(* KF-43: f0 <- f1 (plain copy, never used) <- f2 (linkback copy of f1, used).  f1 is not locked (f2 is a linkback child),
+   so nothing locks f0; f0.register succeeds, is not propagated (f1 is not a linkback child of f0): f2 keeps the old table *)
+Definition kf43_history : list op :=
+  [OCreate [] false; ORegister 0 0 1; OCopy 0 [] false; OCopy 1 [] true; OUse 2; ORegister 0 1 9].
 
-Theorem C16_overlay_refuted_stale :
-  exists ops n, stale_free ops = false /\ obs (run ops) n <> defns (length (run ops)) (run ops) n /\
+Theorem C16_overlay_refuted_unused_link :
+  exists ops n, stale_free ops = false /\ snd (step (run (removelast ops)) (last ops (OUse 0))) = Done /\
                 obs (run ops) n = Some [((0, 0%Z), 1)] /\
                 defns (length (run ops)) (run ops) n = Some [((0, 0%Z), 1); ((1, 0%Z), 9)].
-Proof. exists kf18_history, 2. vm_compute. repeat split; try reflexivity. discriminate. Qed.
-Print Assumptions C16_overlay_refuted_stale.
-
-(* KF-40: f0 used, then f0.add_mixins(f1): f0 is not rebuilt, f1's method is invisible in it *)
-Definition kf40_history : list op :=
-  [OCreate [] false; ORegister 0 0 1; OCreate [] false; ORegister 1 1 2; OUse 0; OAddMixins 0 [1]].
-
-Theorem C16_overlay_refuted_late_mixin :
-  exists ops n, stale_free ops = false /\
-                obs (run ops) n = Some [((0, 0%Z), 1)] /\
-                defns (length (run ops)) (run ops) n = Some [((1, 0%Z), 2); ((0, 0%Z), 1)].
-Proof. exists kf40_history, 0. vm_compute. repeat split; reflexivity. Qed.
-Print Assumptions C16_overlay_refuted_late_mixin.
+Proof. exists kf43_history, 2. vm_compute. repeat split; reflexivity. Qed.
+Print Assumptions C16_overlay_refuted_unused_link.
 
 (* ---------- isolation ---------- *)
 (* an operation on N (for the constructors: the node they create) changes the observable of no node that does not
@@ -94,71 +87,66 @@ Theorem C16_locked_refuses : forall g o x, is_modification o = true -> g_get g (
 Proof. exact locked_refuses. Qed.
 Print Assumptions C16_locked_refuses.
 
-(* FULL STATEMENT (false of the faithful model, see C16_lock_refuted and C16_lock_refuted_late_mixin):
-     forall ops c y a z, g_get (run ops) c = Some y -> n_compiled y = true -> NLPath (run ops) c a ->
-                         g_get (run ops) a = Some z -> n_locked z = true
-   (once a node is in use, every function it derives from through non-linkback derivations refuses modification).
-   PROVED: the same for paths of length one -- the direct non-linkback parents -- for the histories in the decidable
-   domain [no_late_mixin] (add_mixins never applied to a node already in use, KF-40). *)
-Theorem C16_lock_partial : forall ops, no_late_mixin ops = true ->
-  forall c y m z, g_get (run ops) c = Some y -> n_compiled y = true -> n_linkback y = false ->
-                  In m (n_mixins y) -> g_get (run ops) m = Some z -> n_locked z = true.
-Proof. exact lock_partial. Qed.
-Print Assumptions C16_lock_partial.
+(* FULL: once c is in use, every function c derives from through a path whose first derivation is not a linkback one is
+   locked -- the direct parent m, and everything m derives from through derivations of either kind
+   (plain paths of any length: the old KF-18; plain-then-linkback paths as well) *)
+Theorem C16_lock : forall ops c y m a, let g := run ops in
+  g_get g c = Some y -> n_compiled y = true -> n_linkback y = false -> In m (n_mixins y) -> Anc g a m ->
+  exists w, g_get g a = Some w /\ n_locked w = true.
+Proof. exact lock_full. Qed.
+Print Assumptions C16_lock.
 
-(* KF-18: the grandparent of a used node is still modifiable; the modification succeeds and the grandchild is stale *)
-Theorem C16_lock_refuted :
-  exists ops c a y z, no_late_mixin ops = true /\
-    g_get (run ops) c = Some y /\ n_compiled y = true /\ NLPath (run ops) c a /\
-    g_get (run ops) a = Some z /\ n_locked z = false /\
-    snd (step (run ops) (ORegister a 1 9)) = Done /\ fresh_b (step_g (run ops) (ORegister a 1 9)) c = false.
-Proof.
-  exists [OCreate [] false; ORegister 0 0 1; OCopy 0 [] false; OCopy 1 [] false; OUse 2], 2, 0.
-  eexists. eexists. split; [vm_compute; reflexivity|]. split; [vm_compute; reflexivity|]. split; [reflexivity|].
-  split. { eapply nl_step with (m := 1); [vm_compute; reflexivity | reflexivity | left; reflexivity |].
-           eapply nl_one; [vm_compute; reflexivity | reflexivity | left; reflexivity]. }
-  split; [vm_compute; reflexivity|]. split; [reflexivity|]. split; vm_compute; reflexivity.
-Qed.
-Print Assumptions C16_lock_refuted.
+(* the statement that was refuted before the repair of KF-18, now a theorem *)
+Theorem C16_lock_plain_paths : forall ops c y a, let g := run ops in
+  g_get g c = Some y -> n_compiled y = true -> NLPath g c a -> exists w, g_get g a = Some w /\ n_locked w = true.
+Proof. exact lock_nlpath. Qed.
+Print Assumptions C16_lock_plain_paths.
 
-(* KF-40: a parent added to a node already in use is not locked (and stays modifiable) *)
-Theorem C16_lock_refuted_late_mixin :
-  exists ops c m y z, no_late_mixin ops = false /\
-    g_get (run ops) c = Some y /\ n_compiled y = true /\ n_linkback y = false /\ In m (n_mixins y) /\
-    g_get (run ops) m = Some z /\ n_locked z = false.
-Proof.
-  exists kf40_history, 0, 1. eexists. eexists. split; [vm_compute; reflexivity|]. split; [vm_compute; reflexivity|].
-  split; [reflexivity|]. split; [reflexivity|]. split; [left; reflexivity|]. split; [vm_compute; reflexivity | reflexivity].
-Qed.
-Print Assumptions C16_lock_refuted_late_mixin.
+(* a locked function never derives from a modifiable one *)
+Theorem C16_lock_closed : forall ops a m z, let g := run ops in
+  g_get g m = Some z -> n_locked z = true -> Anc g a m -> exists w, g_get g a = Some w /\ n_locked w = true.
+Proof. exact lock_closed. Qed.
+Print Assumptions C16_lock_closed.
 
 (* ---------- linkback ---------- *)
-(* after every successful register / unregister on N, every node deriving from N through linkback derivations shows
-   exactly what a rebuild would give now (which, by C16_overlay, contains N's change) *)
+(* after every successful register / unregister / add_mixins on N, every node deriving from N through linkback
+   derivations shows exactly what a rebuild would give now (which, by C16_overlay, contains N's change);
+   the only exception is an add_mixins that had nothing to add, which changes nothing at all *)
 Theorem C16_linkback : forall ops o k, let g := run ops in
-  (match o with ORegister _ _ _ | OUnregister _ _ => True | _ => False end) ->
-  snd (step g o) = Done -> Lb g (target g o) k ->
-  obs (step_g g o) k = defns (length (step_g g o)) (step_g g o) k.
+  is_modification o = true -> snd (step g o) = Done -> Lb g (target g o) k ->
+  obs (step_g g o) k = defns (length (step_g g o)) (step_g g o) k \/
+  (exists n ms, o = OAddMixins n ms /\ nself n ms = [] /\ step_g g o = g).
 Proof. exact linkback. Qed.
 Print Assumptions C16_linkback.
 
-(* KF-40: the same is false for add_mixins: the linkback child of N does not see N's new parent *)
-Theorem C16_linkback_refuted_add_mixins :
-  exists ops n ms k, let g := run ops in
-    snd (step g (OAddMixins n ms)) = Done /\ lb_b (length g) g n k = true /\
-    obs (step_g g (OAddMixins n ms)) k <> defns (length (step_g g (OAddMixins n ms))) (step_g g (OAddMixins n ms)) k.
-Proof.
-  exists [OCreate [] false; ORegister 0 0 1; OCopy 0 [] true; OUse 1; OCreate [] false; ORegister 2 1 2], 0, [2], 1.
-  vm_compute. repeat split; try reflexivity. discriminate.
-Qed.
-Print Assumptions C16_linkback_refuted_add_mixins.
+(* ---------- the witnesses of the repaired findings, now showing the repaired behaviour ---------- *)
+(* KF-18 (fixed 7f4d316): f0 <- f1 <- f2 plain copies, f2 used: f0.register is refused, f2 is up to date *)
+Example C16_kf18_repaired :
+  let ops := [OCreate [] false; ORegister 0 0 1; OCopy 0 [] false; OCopy 1 [] false; OUse 2] in
+  step (run ops) (ORegister 0 1 9) = (run ops, Locked) /\ fresh_b (run ops) 2 = true /\
+  map (fun x => n_locked x) (run ops) = [true; true; false].
+Proof. vm_compute. repeat split; reflexivity. Qed.
 
-(* ---------- non-vacuity of the domains ---------- *)
+(* KF-40 (fixed 7be068c): f0 used, then f0.add_mixins(f1): f0 is rebuilt with f1's method and f1 is locked *)
+Example C16_kf40_repaired :
+  let ops := [OCreate [] false; ORegister 0 0 1; OCreate [] false; ORegister 1 1 2; OUse 0; OAddMixins 0 [1]] in
+  obs (run ops) 0 = Some [((1, 0%Z), 2); ((0, 0%Z), 1)] /\ fresh_b (run ops) 0 = true /\
+  map (fun x => n_locked x) (run ops) = [false; true] /\ stale_free ops = true.
+Proof. vm_compute. repeat split; reflexivity. Qed.
+
+(* KF-40, linkback side: the used linkback child of f0 sees the parent f0 acquires later *)
+Example C16_kf40_linkback_repaired :
+  let ops := [OCreate [] false; ORegister 0 0 1; OCopy 0 [] true; OUse 1; OCreate [] false; ORegister 2 1 2; OAddMixins 0 [2]] in
+  obs (run ops) 1 = Some [((1, 0%Z), 2); ((0, 0%Z), 1)] /\ fresh_b (run ops) 1 = true.
+Proof. vm_compute. repeat split; reflexivity. Qed.
+
+(* ---------- non-vacuity of the domain ---------- *)
 Example C16_domains_inhabited :
   let ops := [OCreate [] false; ORegister 0 0 1; OCopy 0 [] true; OCopy 0 [] false; OUse 1; ORegister 0 1 2;
-              OUse 2; ORegister 0 2 3; OVariant 1 [] false 3 4; OUse 3; OAddMixins 0 [1]] in
-  stale_free ops = true /\ no_late_mixin ops = true /\
+              OUse 2; ORegister 0 2 3; OVariant 1 [] false 3 4; OUse 3; OAddMixins 2 [3]] in
+  stale_free ops = true /\
   map (fun o => snd o) (map (step (run (firstn 7 ops))) [ORegister 0 2 3]) = [Locked] /\
   obs (run ops) 1 = Some [((0, 0%Z), 1); ((1, 0%Z), 2)] /\
-  obs (run ops) 3 = Some [((0, 0%Z), 1); ((1, 0%Z), 2); ((3, 0%Z), 4)].
+  obs (run ops) 3 = Some [((0, 0%Z), 1); ((1, 0%Z), 2); ((3, 0%Z), 4)] /\
+  obs (run ops) 2 = Some [((0, 0%Z), 1); ((1, 0%Z), 2); ((3, 0%Z), 4)].
 Proof. vm_compute. repeat split; reflexivity. Qed.
